@@ -21,6 +21,16 @@ func main() {
 	switch prop {
 	case "C19":
 		runC19(rep, *tier, *seed, *replay)
+	case "C03", "C16":
+		runFaultSuite(rep, *tier, *seed, prop)
+	case "C14", "C15":
+		runTeardownSuite(rep, *tier, *seed, prop)
+	case "C01":
+		runC01(rep, *tier, *seed)
+	case "C02":
+		runC02(rep, *tier, *seed)
+	case "C10":
+		runC10(rep, *tier, *seed)
 	default:
 		fmt.Fprintln(os.Stderr, "harness: no suite for", prop)
 		os.Exit(2)
